@@ -52,7 +52,7 @@ PROPS = {
     ),
     "C02": dict(
         gens=[tlc("c02"), rand("stream_ascii", 600, "quick"), rand("stream_ascii", 30000, "thorough")],
-        tv_props=["C02"],
+        tv_props=["C02", "DRIFT"],
         mc=[dict(module="MC_ReplaceM.tla", cfg="MC_ReplaceM", tier="quick"),
             dict(module="MC_ReplaceM.tla", cfg="MC_ReplaceM_deep", tier="thorough", timeout=3000)],
         must_fire=["C02.chunk_positions", "C02.end_position", "C02.final_positions_in_text"],
@@ -61,7 +61,7 @@ PROPS = {
     ),
     "C03": dict(
         gens=[tlc("c02"), tlc("c04"), rand("stream_ascii", 600, "quick"), rand("stream_ascii", 30000, "thorough")],
-        tv_props=["C03"],
+        tv_props=["C03", "DRIFT"],
         mc=[dict(module="MC_K1.tla", cfg="MC_K1"), dict(module="MC_K1.tla", cfg="MC_K1_same", expect="SameAnswer")],
         must_fire=["C03.map_equals_stream_columns", "C03.map_equals_stream_lines", "C03.none_iff_no_mapped_chunk"],
         rule="as C02; every map() answer is resolved at every byte position and compared with the covering chunk of the "
@@ -70,7 +70,7 @@ PROPS = {
     ),
     "C04": dict(
         gens=[tlc("c02"), tlc("c04"), rand("orig_trees", 700, "quick"), rand("orig_trees", 30000, "thorough")],
-        tv_props=["C04"],
+        tv_props=["C04", "DRIFT"],
         must_fire=["C04.segments_point_to_origin", "C04.originals_covered", "C04.raw_unmapped",
                    "C04.statement_starts_exact", "C04.sources_table", "C04.lines_first_original"],
         rule="trees over raw/orig/concat/replace/cached (Cached never beneath Replace); the byte provenance Prov(tree) of "
@@ -80,7 +80,7 @@ PROPS = {
     ),
     "C05": dict(
         gens=[tlc("c05"), rand("replace_hist", 500, "quick"), rand("replace_hist", 30000, "thorough")],
-        tv_props=["C05"],
+        tv_props=["C05", "DRIFT"],
         must_fire=["C05.source_is_splice"],
         rule="histories of replace/insert calls interleaved with observers; non-trivial = at least two replacements",
         nontrivial=lambda p: sum(1 for s in p.get("steps", []) if s["op"] == "replace") >= 2,
@@ -101,7 +101,7 @@ PROPS = {
     ),
     "C07": dict(
         gens=[tlc("c07"), rand("views", 500, "quick"), rand("views", 30000, "thorough")],
-        tv_props=["C07"],
+        tv_props=["C07", "DRIFT"],
         must_fire=["C07.source_is_text", "C07.buffer", "C07.size_is_buffer_len", "C07.rope_renders_to_text", "C07.writer"],
         rule="all five content views plus failing writers; non-trivial = composite tree or a binary leaf",
         nontrivial=lambda p: bool(prog_kinds(p) & {"concat", "replace", "cached"}),
@@ -141,7 +141,7 @@ PROPS = {
     ),
     "C11": dict(
         gens=[tlc("c02"), rand("stream_ascii", 600, "quick"), rand("stream_ascii", 30000, "thorough")],
-        tv_props=["C11"],
+        tv_props=["C11", "DRIFT"],
         must_fire=["C11.announce_before_use", "C11.map_well_formed", "C11.map_strictly_increasing",
                    "C11.map_inside_text", "C11.map_indices_in_tables"],
         rule="as C02; non-trivial = the tree can produce a map (orig/sms leaf)",
@@ -161,7 +161,7 @@ PROPS = {
     ),
     "C13": dict(
         gens=[tlc("c13"), rand("laws", 400, "quick"), rand("laws", 20000, "thorough")],
-        tv_props=["C13"],
+        tv_props=["C13", "DRIFT"],
         must_fire=["C13.same_text", "C13.same_attribution_columns", "C13.same_attribution_lines"],
         rule="pairs (flat tree, regrouped / wrapped tree); non-trivial = at least one mapped leaf",
         nontrivial=lambda p: bool(prog_kinds(p) & {"orig", "sms"}),
